@@ -644,7 +644,9 @@ impl Connection {
         let result;
         {
             let online = self.state.assert_online();
-            if buffer.len() > MAX_PAYLOAD {
+            // The chunk must fit into an empty packet together with its
+            // header, otherwise it can never be (re)sent.
+            if buffer.len() + protocol::chunk_header_size(vital) > MAX_PAYLOAD {
                 return Err(Error::TooLongData);
             }
             if !online.packet.can_fit_chunk(buffer, vital) {
